@@ -337,6 +337,7 @@ class _Run:
             from aioslsk.session import Session
             self.lines.append('login')
             self.online = True
+            self.tr_clean = False                        # the login requests a cycle: TRANSFER is judged after it ran
             self.session = Session(user=self.um.get_user_object(ME), ip_address='1.2.3.4', greeting='',
                                    client_version=157, minor_version=100)
             for n in NAMES:
@@ -413,7 +414,7 @@ class _Run:
                 elif self.has_finished(n):
                     self.ref_call(n, False, F_TR)
             await self.mgr.manage_user_tracking()
-            self.tr_clean = True
+            self.tr_clean = self.session is not None     # a cycle without a session says nothing about the next session
             await self.after(m)
         elif kind == 'tm':
             # older replay files: "one cycle over exactly these transfers"
@@ -833,8 +834,9 @@ def _monitor(case: dict, res: dict) -> list[Violation]:
             # user is quiescent: nothing parked, loop settled
             if u['flags'] != R:
                 flag('C15-flags-not-fold-of-calls',
-                     f'{where}: get_tracking_flags={u["flags"]} but the calls made so far leave reasons {R} '
-                     f'(a call was lost)' + (f' [{_why(n, cp)}]' if res['world'] else ''),
+                     f'{where}: get_tracking_flags={u["flags"]} but the calls made so far'
+                     + (f' and what the owners of the reasons could see when they looked leave reasons {R} [{_why(n, cp)}]'
+                        if res['world'] else f' leave reasons {R} (a call was lost)'),
                      observed=u['flags'], required=R)
                 continue
             if C != E:
